@@ -32,6 +32,7 @@ const EXTRACTORS: [&dyn DimensionsExtractor; 4] = [
 pub fn get_dimensions<T: AsRef<Path>>(path: T) -> Option<Dimensions> {
     let path_ref = path.as_ref();
     let extension = path_ref.extension()?.to_str()?;
+    crate::util::open_for_reading(path_ref).ok()?;
 
     EXTRACTORS
         .iter()
